@@ -5,7 +5,8 @@ namespace WindVerif.Pool
 /-- consumer pcs inside an `imap` call, after the replace thread may have been started -/
 def inCall : CPc → Bool
   | .fInitSet | .wrSending | .wrDataCnt | .fStart | .rdSending | .rdDataCnt | .qsize1 | .lockAcq | .qsize2 | .getNowait
-  | .lockRel | .getBlock | .flowClear | .flowIsSet | .flowSet | .fStopSet | .fJoin | .rPutNone | .rStopSet | .rJoin => true
+  | .lockRel | .getBlock | .flowClear | .flowIsSet | .flowSet | .fStopSet | .fJoin | .rPutNone | .rStopSet | .rJoin
+  | .midReady _ _ => true
   | _ => false
 
 /-- workers with a smaller wid have been waited for by `until_all_ready` -/
